@@ -37,14 +37,14 @@ Qed.
 Ltac nzs2 := repeat split; first [assumption | lra | nra | (intro; nra)].
 
 Ltac combo_entry :=
-  unfold el, id_map, pipe_map, keep2; cbn [Nat.mul Nat.add Nat.ltb Nat.leb Nat.eqb andb negb];
+  unfold el, id_map, pipe_map, keep_but, keep2, keep1; cbn [Nat.mul Nat.add Nat.ltb Nat.leb Nat.eqb andb negb];
   autounfold with c21_combos; unfold ortho3d; cbv zeta; cbn [nth];
   first [reflexivity | timeout 60 (field; nzs2)].
 
 Ltac combo_tac :=
   intros E1 E2 E3 n12 n23 n13 G12 G23 G13 [H1 [H2 [H3 Hdet]]] Hm;
   pose proof (det_poly' E1 E2 E3 n12 n23 n13 H1 H2 H3 Hdet) as Hp;
-  cbv [reduces is_condensed axes_map exchanged hyp_size] in Hm |- *;
+  cbv [reduces is_condensed axes_map exchanged hyp_size cond_comp] in Hm |- *;
   try (specialize (Hm eq_refl); cbv [pipe_map id_map] in Hm;
        first [pose proof (minor2_poly _ _ _ _ _ _ H1 H2 Hm) as Hq | pose proof (minor1_poly _ _ _ _ _ _ H1 H3 Hm) as Hq]);
   intros i j Hi Hj; cases i; cases j; combo_entry.
